@@ -84,7 +84,7 @@ func (p MkLineParser) matchVarassign(line *Line, text string, splitResult *mkLin
 	// Otherwise, line 1 of almost every makefile fragment would need to
 	// be scanned for a variable assignment even though it only contains
 	// the $NetBSD CVS Id.
-	commented := splitResult.main == "" && splitResult.hasComment
+	commented := splitResult.main == "" && splitResult.hasComment && hasPrefix(text, "#")
 	if commented {
 		clex := textproc.NewLexer(splitResult.comment)
 		if clex.SkipHspace() || clex.EOF() {
